@@ -973,6 +973,22 @@ func listRemove(e *Engine, st *State, args []Value, depth int, pos string, k fun
 	// so the shifted sequence is left uninterpreted rather than axiomatised with a quantifier
 	st.heap[cell] = &ListObj{Seq: shifted, Len: Sub(l.Len, IntLit(1)), NilT: l.NilT}
 	st.addTrace(TraceEv{Kind: "list.removeback", Pos: pos})
+	// Remove returns the removed element's Value
+	if len(args) >= 2 {
+		if p, ok := args[1].(VPtr); ok {
+			if sv, ok := e.load(st, p).(VStruct); ok {
+				if et := e.listElementType(); et != nil {
+					stt := et.Underlying().(*types.Struct)
+					for i := 0; i < stt.NumFields() && i < len(sv.F); i++ {
+						if stt.Field(i).Name() == "Value" {
+							k(st, sv.F[i])
+							return
+						}
+					}
+				}
+			}
+		}
+	}
 	k(st, VUnknown{Typ: nil, Note: "removed"})
 }
 
